@@ -425,6 +425,57 @@ func establishAtomic(repo string) [][2]string {
 	return res
 }
 
+// ---- hub/hub_shipconnection.go HandleConnectionClosed: the closing connection is compared with the registered one
+// (DataHandler identity) and the entry is deleted within one muxCon critical section of the function body
+func regCfg(repo string) (closeAtomic bool) {
+	f := parse(repo, "hub/hub_shipconnection.go")
+	fd := funcDecl(f, "HandleConnectionClosed")
+	if fd == nil {
+		return false
+	}
+	span, cur := 0, 0 // cur = number of the critical section we are in (0: none)
+	compareSpan, deleteSpan := -1, -1
+	for _, st := range fd.Body.List {
+		if es, ok := st.(*ast.ExprStmt); ok {
+			if c, ok := es.X.(*ast.CallExpr); ok {
+				if se, ok := c.Fun.(*ast.SelectorExpr); ok && sel(se.X) == "muxCon" {
+					if se.Sel.Name == "Lock" {
+						span++
+						cur = span
+						continue
+					}
+					if se.Sel.Name == "Unlock" {
+						cur = 0
+						continue
+					}
+				}
+			}
+		}
+		ast.Inspect(st, func(x ast.Node) bool {
+			switch v := x.(type) {
+			case *ast.BinaryExpr:
+				if v.Op == token.EQL && mentions(v, "DataHandler") && compareSpan == -1 {
+					compareSpan = cur
+				}
+			case *ast.CallExpr:
+				if sel(v.Fun) == "delete" && len(v.Args) == 2 && sel(v.Args[0]) == "connections" && deleteSpan == -1 {
+					deleteSpan = cur
+				}
+				// a lock taken inside a nested block ends the top-level reasoning: treat as its own section
+				if se, ok := v.Fun.(*ast.SelectorExpr); ok && sel(se.X) == "muxCon" && se.Sel.Name == "Lock" {
+					span++
+					cur = span
+				}
+				if se, ok := v.Fun.(*ast.SelectorExpr); ok && sel(se.X) == "muxCon" && se.Sel.Name == "Unlock" {
+					cur = 0
+				}
+			}
+			return true
+		})
+	}
+	return compareSpan > 0 && compareSpan == deleteSpan
+}
+
 func containsCall(n ast.Node, name string) bool {
 	found := false
 	ast.Inspect(n, func(x ast.Node) bool {
@@ -890,6 +941,7 @@ func main() {
 		a, b := avahiCfg(*repo)
 		files["AvahiFacts.lean"] = fmt.Sprintf("/- GENERATED by /verif/extract from /repo — do not edit. -/\nimport ShipVerif.Model.Avahi\nnamespace ShipVerif.Generated\n\n/-- mdns/avahi.go: design facts of the reconnect loop -/\ndef avahiCfg : ShipVerif.Avahi.Cfg := { reconnectRespectsShutdown := %v, reannounceCurrent := %v }\n\nend ShipVerif.Generated\n", a, b)
 	}
+	files["RegFacts.lean"] = fmt.Sprintf("/- GENERATED by /verif/extract from /repo — do not edit. -/\nimport ShipVerif.Model.Reg\nnamespace ShipVerif.Generated\n\n/-- hub/hub_shipconnection.go HandleConnectionClosed: design facts -/\ndef regCfg : ShipVerif.Reg.Cfg := { closeAtomic := %v }\n\nend ShipVerif.Generated\n", regCfg(*repo))
 	files["AsyncFacts.lean"] = fmt.Sprintf("/- GENERATED by /verif/extract from /repo — do not edit. -/\nimport ShipVerif.Model.View\nnamespace ShipVerif.Generated\n\n/-- mdns/mdns.go: reports are delivered under a mutex and dropped when a newer snapshot was delivered -/\ndef mdnsReportCfg : ShipVerif.Async.Cfg := { guarded := %v }\n\nend ShipVerif.Generated\n", mdnsReportGuarded(*repo))
 	if *withLocks {
 		lf, err := lockFactsLean(*repo)
